@@ -587,7 +587,7 @@ def batch_eval(ctx, candidates, svcs, timeout_on, leave_live, tag="shrink"):
     return out
 
 
-def shrink(ctx, events, target, svcs, timeout_on, leave_live, budget=8):
+def shrink(ctx, events, target, svcs, timeout_on, leave_live, budget=5):
     """Greedy reduction of a failing history: shortest failing prefix, then removal of blocks of events.
     `target`: set of conjuncts; a candidate fails when it violates one of them.  Returns the reduced event list
     (always one that was observed to fail, or the input)."""
@@ -655,6 +655,8 @@ class Reporter:
         self.max_reports = max_reports
         self.nreports = 0
         self.seen = set()
+        self.classes = {}           # (conjuncts, sanitizer kind, where) -> number of reports: the same defect shows on
+        self.per_class = 2          # hundreds of histories; each report costs re-runs and a reduction
         self.other = {}
         self.ndrift = {"D": 0, "L": 0, "G": 0}
 
@@ -673,6 +675,14 @@ class Reporter:
                 self.drift(kind, "%s [%s] at %s" % (text, source, describe(x["l"])),
                            {"observed": {k: got.get(k) for k in ("ev", "o", "n", "st", "pn")} if got else None,
                             "predicted": x.get("want"), "predicted_inuse": x.get("wantn")})
+
+    def _class_full(self, mine, kind, where):
+        k = (tuple(sorted(mine)), kind, where)
+        return self.classes.get(k, 0) >= self.per_class
+
+    def _class_count(self, mine, kind, where):
+        k = (tuple(sorted(mine)), kind, where)
+        self.classes[k] = self.classes.get(k, 0) + 1
 
     def note_other(self, conj):
         for c in conj:
@@ -705,8 +715,12 @@ class Reporter:
                 continue
             rec = trace_line(res["trace"], x["l"])
             if rec["e"] == "Eof":
+                if self._class_full(mine, san_kind(rec.get("san")), "eof"):
+                    continue
                 self._hook_eof(source, rec, mine, procs[pn], behaviours, tails, svcs, timeout_on, table)
             else:
+                if self._class_full(mine, san_kind(procs[pn].get("san", "")) if rec["e"] == "Crash" else "", "step"):
+                    continue
                 full = behaviours[bi] + ([] if (procs[pn]["live_last"] and procs[pn]["bis"][-1] == bi) else
                                          (tails[bi] if tails else []) + R._cleanup_events(behaviours[bi]))
                 upto = full[:si + 1] if si >= 0 else full
@@ -730,6 +744,7 @@ class Reporter:
         small = shrink(ctx, upto, still, svcs, timeout_on, False)
         conj = "+".join(sorted(still))
         kind = san_kind(san)
+        self._class_count(mine, kind, "step")
         sig = "%s%s: %s" % (conj, (" (" + kind + ")") if kind else "", ev_sig(small))
         self.nreports += 1
         ctx.violation("contract conjunct(s) %s violated by the real daemon on history [%s] (%s; reduced from %d events)"
@@ -749,7 +764,7 @@ class Reporter:
                 culprit, leave = ev, True
         # 2. each behaviour of the process on its own (driven to its end)
         if culprit is None:
-            cands = [behaviours[b] + (tails[b] if tails else []) + R._cleanup_events(behaviours[b]) for b in bis[:80]]
+            cands = [behaviours[b] + (tails[b] if tails else []) + R._cleanup_events(behaviours[b]) for b in bis[:48]]
             outs = batch_eval(ctx, cands, svcs, timeout_on, False, tag="eof")
             for c, o in zip(cands, outs):
                 if o & mine:
@@ -767,6 +782,7 @@ class Reporter:
         self.seen.add(key)
         conj = "+".join(sorted(mine))
         kind = san_kind(rec.get("san"))
+        self._class_count(mine, kind, "eof")
         sig = "%s%s at end of input%s: %s" % (conj, (" (" + kind + ")") if kind else "",
                                               " with requests pending" if leave else "", ev_sig(small))
         self.nreports += 1
@@ -799,6 +815,8 @@ class Reporter:
             if not mine or self.nreports >= self.max_reports:
                 continue
             rec = out["records"][hi][si]
+            if self._class_full(mine, san_kind(rec.get("san", "")), "rt"):
+                continue
             if drifted.get(hi, 10**9) < si and not (mine & {"crash", "exit", "sanitizer"}):
                 ctx.note("finding %s after a drift in the same real-timer history: the schedule came from a model that does "
                          "not match the code here (reported as drift only)" % sorted(mine))
@@ -822,6 +840,7 @@ class Reporter:
                 continue
             conj_s = "+".join(sorted(mine))
             kind = san_kind(rec.get("san", ""))
+            self._class_count(mine, kind, "rt")
             sig = "%s%s real timers: %s" % (conj_s, (" (" + kind + ")") if kind else "", ev_sig(histories[hi]))
             self.nreports += 1
             ctx.violation("real timers (timeout %d s, tick %.2f s): contract conjunct(s) %s violated at record %d of timed "
